@@ -6,6 +6,7 @@ import (
 	"hash/fnv"
 	"math"
 	"reflect"
+	"strconv"
 	"strings"
 )
 
@@ -143,7 +144,7 @@ type xmlRec struct {
 func mkXMLRec(s, num string) xmlRec {
 	r := xmlRec{XMLName: xml.Name{Local: "rec"}, Name: s, ID: int64(h64(s)), Label: s, F: fracFloat(s), B: len(s)%2 == 0, Tags: pieces(s)}
 	for i, p := range pieces(s) {
-		r.Items = append(r.Items, xmlItem{K: num + strings.Repeat("k", i), V: p})
+		r.Items = append(r.Items, xmlItem{K: num + "#" + strconv.Itoa(i), V: p})
 	}
 	if len(s)%3 != 0 {
 		n := num + s
